@@ -52,7 +52,7 @@ def QSys.stepClient (s : QSys) (i : Nat) (crashAfter : Bool) : QSys × Option St
         let t := match c.pc with
           | .popExec .. => s.clock
           | _ => c.arrival
-        let before := match c.pc with | .popExec _ _ ids => ids | _ => []
+        let before := match c.pc with | .popExec _ _ ids _ => ids | _ => []
         let (st', pc', used, label) := qstep s.store t s.fresh c.op c.pc
         let got := before.filterMap fun id => s.store.pItems[id]?
         let c' : QClient := { c with pc := pc', arrival := s.clock, popped := c.popped ++ got, dead := crashAfter }
